@@ -12,18 +12,21 @@ insights/parsr/query/boolean.py (the predicate algebra with its two evaluators).
   query/__init__.py:874-912    `flatten` = _flatten, `matchLv`/`runQueries` = compile_queries.match
   query/__init__.py:915-935    `selectNodes`, `rootsOf`, `select` = select(query, nodes, deep, roots)  (with fix 9796838)
   query/__init__.py:231-240    `Node.root` (Entry.root: furthest ancestor, None for a parentless node)
+  query/__init__.py:255-264, 538-601   `Node.upto`, `parentsOf`, `rootsOf`, `uptoOf` (Entry.upto, Result.parents/roots/upto)
   query/__init__.py:266-283, 408-412, 628-630, 691-695   Entry/Result .select/.find/__getitem__
   query/__init__.py:285-318, 632-668                     Entry/Result .where with an entry query / (name, value)
   boolean.py:47-55, query/__init__.py:709-716            `BTerm`, `letB`, `runLets`: combinations are VALUES —
                                `b & c`, `b | c`, `~b` build a NEW object from operands that were built before
 
 A Python `Entry` is an object with a parent pointer.  The model keeps the pointer chain
-explicitly: a `Node` is a tree together with the list of its ancestors (nearest first), so that
-`parent` = head and `root` = last element of that list.  `kids` extends the chain.
+explicitly: a `Node` is a tree (content only) together with the list of its ancestors (nearest
+first), so that `parent` = head and `root` = last element of that list, and with its IDENTITY
+`path` (document number, then child indexes).  `kids` extends both.  Nothing in the model ever
+compares content to decide whether two nodes are the same node: `seen` sets hold paths.
 
 Not modelled: Entry names / attributes other than None, int and str (bool, float); `isin`,
 `matches`; n-ary `All(...)`/`Any(...)` built by hand (the operators `&`, `|` only build binary
-ones); int/slice indexing; `where` with a bare callable, `choose`, `nth`, `upto`; opaque callables are a parameter
+ones); int/slice indexing; `where` with a bare callable, `choose`, `nth`; opaque callables are a parameter
 `ρ : Env` (the theorems hold for every ρ; the driver instantiates a concrete family).
 -/
 namespace IV.Query
@@ -37,30 +40,37 @@ inductive Val where
   | str (s : Str)
 deriving DecidableEq, Repr
 
-/-- an Entry: (identity, _name, attrs, children) -/
+/-- the CONTENT of an Entry: (_name, attrs, children).  Two distinct entries with the same content
+are the same `Tree`; what tells them apart is where they are (`Node.path`). -/
 inductive Tree where
-  | node (id : Nat) (name : Val) (attrs : List Val) (children : List Tree)
+  | node (name : Val) (attrs : List Val) (children : List Tree)
 deriving Repr
 
 namespace Tree
-def id : Tree → Nat | .node i _ _ _ => i
-def name : Tree → Val | .node _ n _ _ => n
-def attrs : Tree → List Val | .node _ _ a _ => a
-def children : Tree → List Tree | .node _ _ _ c => c
+def name : Tree → Val | .node n _ _ => n
+def attrs : Tree → List Val | .node _ a _ => a
+def children : Tree → List Tree | .node _ _ c => c
 end Tree
 
-/-- an Entry seen through its parent pointers: `anc` = parent, grandparent, …, furthest ancestor -/
+/-- an Entry as an OBJECT: its content, its parent pointers (`anc` = parent, grandparent, …, furthest
+ancestor) and its identity `path` = position among the documents / start nodes followed by the child
+indexes.  Python compares and hashes entries by object identity; the model does so by `path`. -/
 structure Node where
   anc : List Tree
   tree : Tree
+  path : List Nat
 deriving Repr
 
+/-- the trees `cs` as the children number i, i+1, … of the entry at `path` -/
+def kidsFrom (anc : List Tree) (path : List Nat) : Nat → List Tree → List Node
+  | _, [] => []
+  | i, c :: cs => ⟨anc, c, path ++ [i]⟩ :: kidsFrom anc path (i + 1) cs
+
 namespace Node
-def id (n : Node) : Nat := n.tree.id
 def name (n : Node) : Val := n.tree.name
 def attrs (n : Node) : List Val := n.tree.attrs
 /-- `n.children`, each child pointing back at `n` -/
-def kids (n : Node) : List Node := n.tree.children.map (fun c => ⟨n.tree :: n.anc, c⟩)
+def kids (n : Node) : List Node := kidsFrom (n.tree :: n.anc) n.path 0 n.tree.children
 /-- `Entry.root`: the furthest ancestor; None when the node has no parent -/
 def root (n : Node) : Option Tree := n.anc.getLast?
 end Node
@@ -266,14 +276,14 @@ def Query.eval (ρ : Env) : Query → Node → Bool
 
 mutual
 /-- `inner(n)` of `_flatten`: the node, then its descendants, pre-order -/
-def flatT (anc : List Tree) : Tree → List Node
-  | .node i n a cs => ⟨anc, .node i n a cs⟩ :: flatL (.node i n a cs :: anc) cs
-def flatL (anc : List Tree) : List Tree → List Node
-  | [] => []
-  | t :: ts => flatT anc t ++ flatL anc ts
+def flatT (anc : List Tree) (path : List Nat) : Tree → List Node
+  | .node n a cs => ⟨anc, .node n a cs, path⟩ :: flatL (.node n a cs :: anc) path 0 cs
+def flatL (anc : List Tree) (path : List Nat) : Nat → List Tree → List Node
+  | _, [] => []
+  | i, t :: ts => flatT anc (path ++ [i]) t ++ flatL anc path (i + 1) ts
 end
 
-def flatNode (n : Node) : List Node := flatT n.anc n.tree
+def flatNode (n : Node) : List Node := flatT n.anc n.path n.tree
 
 /-- `_flatten(nodes)` -/
 def flatten (nodes : List Node) : List Node := nodes.flatMap flatNode
@@ -295,24 +305,55 @@ def runQueries {α : Type} (kids : α → List α) : List (α → Bool) → List
 def selectNodes (ρ : Env) (qs : List Query) (nodes : List Node) (deep : Bool) : Option (List Node) :=
   runQueries Node.kids (qs.map (Query.eval ρ)) (if deep then flatten nodes else nodes)
 
-/-- `r.root if r.root is not None else r` (select, after fix 9796838): the furthest ancestor, and the
-node itself when it has no parent -/
+/-- `r.root if r.root is not None else r` (select, after fix 9796838; `Result.roots` likewise): the
+content of the furthest ancestor, or of the node itself when it has no parent -/
 def Node.rootOrSelf (n : Node) : Tree := n.root.getD n.tree
 
-/-- the loop `for r in results: root = r.root if r.root is not None else r;
-if root not in seen: seen.add(root); top.append(root)`; `seen` holds identities -/
-def rootsLoop : List Node → List Nat → List Tree → List Tree
-  | [], _, top => top
-  | r :: rs, seen, top =>
-    if seen.contains r.rootOrSelf.id then rootsLoop rs seen top
-    else rootsLoop rs (r.rootOrSelf.id :: seen) (top ++ [r.rootOrSelf])
+/-- … and its identity: the node's path without the child indexes of its `anc.length` ancestors -/
+def Node.rootPath (n : Node) : List Nat := n.path.take (n.path.length - n.anc.length)
 
-def rootsOf (results : List Node) : List Tree := rootsLoop results [] []
+/-- the root as an object -/
+def Node.rootNode (n : Node) : Node := ⟨[], n.rootOrSelf, n.rootPath⟩
+
+/-- `c.parent if c.parent is not None else c` (`Result.parents`) -/
+def Node.parentOrSelf (n : Node) : Node :=
+  match n.anc with
+  | [] => n
+  | p :: rest => ⟨rest, p, n.path.dropLast⟩
+
+/-- the parent chain as objects, nearest first -/
+def ancNodes : List Tree → List Nat → List Node
+  | [], _ => []
+  | p :: rest, path => ⟨rest, p, path.dropLast⟩ :: ancNodes rest path.dropLast
+
+def Node.ancestors (n : Node) : List Node := ancNodes n.anc n.path
+
+/-- the de-duplication loop shared by select(roots=True), Result.roots, Result.parents, Result.upto:
+`for x in xs: if x not in seen: seen.add(x); out.append(x)`.  `seen` is a Python set of Entry
+objects, which hash and compare by identity: the model's `seen` holds paths, never content. -/
+def dedupLoop : List Node → List (List Nat) → List Node → List Node
+  | [], _, out => out
+  | x :: xs, seen, out =>
+    if seen.contains x.path then dedupLoop xs seen out
+    else dedupLoop xs (x.path :: seen) (out ++ [x])
+
+/-- select(roots=True) and `Result.roots` -/
+def rootsOf (results : List Node) : List Node := dedupLoop (results.map Node.rootNode) [] []
+
+/-- `Result.parents` -/
+def parentsOf (children : List Node) : List Node := dedupLoop (children.map Node.parentOrSelf) [] []
+
+/-- `Entry.upto(q)`: the first ancestor satisfying the query -/
+def Node.upto (q : Node → Bool) (n : Node) : Option Node := n.ancestors.find? q
+
+/-- `Result.upto(q)` -/
+def uptoOf (q : Node → Bool) (children : List Node) : List Node :=
+  dedupLoop (children.filterMap (Node.upto q)) [] []
 
 /-- what `select(query, nodes, deep, roots)` returns, as identities -/
-def select (ρ : Env) (qs : List Query) (nodes : List Node) (deep roots : Bool) : Option (List Nat) :=
+def select (ρ : Env) (qs : List Query) (nodes : List Node) (deep roots : Bool) : Option (List (List Nat)) :=
   (selectNodes ρ qs nodes deep).map (fun res =>
-    if roots then (rootsOf res).map Tree.id else res.map Node.id)
+    if roots then (rootsOf res).map Node.path else res.map Node.path)
 
 /-- `Entry.select(*qs, deep, roots)`: over the entry's children -/
 def entrySelect (ρ : Env) (e : Node) (qs : List Query) (deep roots : Bool) :=
@@ -381,7 +422,10 @@ def runLets : List BExp → List BTerm → Option (List BExp)
   | env, [] => some env
   | env, t :: ts => (letB env t).bind (fun env' => runLets env' ts)
 
-/-- a parentless Entry (a document top, or a node handed to the module-level `select`) -/
-def top (t : Tree) : Node := ⟨[], t⟩
+/-- the i-th of several parentless entries (document tops, or nodes handed to the module-level `select`) -/
+def top (i : Nat) (t : Tree) : Node := ⟨[], t, [i]⟩
+
+/-- the documents of a forest as objects: number i has identity `[i]` -/
+def tops (docs : List Tree) : List Node := kidsFrom [] [] 0 docs
 
 end IV.Query
